@@ -22,7 +22,7 @@ def machinery_hash():
 
 
 def key(tier):
-    return "%s_%s_%s_%d" % (vlib.tree_hash(("vsg", "docs")), machinery_hash(), tier, vlib.seed())
+    return "%s_%s_%s_%d%s" % (vlib.tree_hash(("vsg", "docs")), machinery_hash(), tier, vlib.seed(), "_" + os.environ["VERIF_ONLY_KIND"].replace(",", "-") if os.environ.get("VERIF_ONLY_KIND") else "")
 
 
 def select(tier):
@@ -55,7 +55,9 @@ def plan(tier):
 
         for f in _rnd.Random("indent_only").sample(fs, 600):  # the same files for every seed: thorough covers every run quick can make
             add(f, ["--style", "indent_only"])
-        var_files = sorted(set(inputs + ex))
+        import random as _rnd2
+
+        var_files = sorted(set(inputs + ex)) + _rnd2.Random("fixed-variants").sample(sorted(fixed), min(len(fixed), 300))  # already-fixed files: later phases act first
         n_opt_rule, n_opt_gen = 10 ** 6, 10 ** 6
     else:
         pick = sorted(set(r.sample(inputs, 170) + r.sample(fixed, 40) + r.sample(rest, 30) + r.sample(ex, min(len(ex), 12))))
@@ -63,7 +65,9 @@ def plan(tier):
             add(f)
         for f in r.sample(pick, 70):
             add(f, ["--style", "jcl"])
-        var_files = r.sample(inputs + ex, 50)
+        import random as _rnd2
+
+        var_files = r.sample(inputs + ex, 50) + r.sample(_rnd2.Random("fixed-variants").sample(sorted(fixed), min(len(fixed), 300)), 12)
         n_opt_rule, n_opt_gen = 90, 90
     # documented option values
     oh = optharvest.load()
@@ -97,10 +101,21 @@ def plan(tier):
     n_der = len(der) if tier == "thorough" else int(os.environ.get("VERIF_NDER", "40"))
     for f, rid in (der if len(der) <= n_der else r.sample(der, n_der)):
         add(f, kind="derived", rule=rid)
+    for f, rid in (der if tier == "thorough" else r.sample(der, min(len(der), n_der // 2))):
+        if "prefix_exceptions" in rt[rid]["configuration"]:
+            add(f, kind="derived", rule=rid, derive_mode="both")
+            add(f, kind="derived", rule=rid, derive_mode="both_overlap")
     for f, rid, s_ in (opt_jobs if len(opt_jobs) <= n_opt_rule else r.sample(opt_jobs, n_opt_rule)) + (gen_jobs if len(gen_jobs) <= n_opt_gen else r.sample(gen_jobs, n_opt_gen)):
         add(f, kind="option", rule=rid, options=s_)
+    # documented indentation configurations on the style examples (library / use clauses, port clauses)
+    icfgs = optharvest.indent_configs(vlib.REPO)
+    ifiles = sorted(ex) if tier == "thorough" else r.sample(sorted(ex), min(len(ex), 8))
+    for f in ifiles:
+        for c in icfgs:
+            add(f, kind="indentcfg", indent=c)
+            add(f, kind="indentcfg", indent=c, variant="case")  # decisions of phase 4 that depend on spellings phase 6 normalises
     for f in var_files:
-        for vk in ("comment0", "dedent", "squeeze", "dedent_squeeze"):
+        for vk in ("comment0", "dedent", "squeeze", "dedent_squeeze", "case", "pragma0"):
             add(f, kind="variant", variant=vk)
     # minimised corpus of inputs that failed before runs first (kept under /verif/corpus_min)
     cm = os.path.join(vlib.VERIF, "corpus_min")
@@ -109,6 +124,8 @@ def plan(tier):
             if f.endswith(".vhd"):
                 side = os.path.join(cm, f[:-4] + ".yaml")  # the configuration the input needs to show what it was kept for
                 jobs.insert(0, dict(path=os.path.join(cm, f), argv=["-c", side] if os.path.exists(side) else [], kind="corpus"))
+    if os.environ.get("VERIF_ONLY_KIND"):  # maintainer use: one family of runs only (part of the cache key through the seed string)
+        jobs = [j for j in jobs if j["kind"] in os.environ["VERIF_ONLY_KIND"].split(",")]
     return jobs
 
 
@@ -142,6 +159,30 @@ def make_variant(lines, kind, r):
                     line = line + " -- K%dt" % n
             res.append(line)
         return res
+    if kind == "pragma0":
+        # single-line pragmas (docs: pragma patterns "single") on lines of their own, in column 0 or indented
+        res, skip, off = [], False, False
+        for n, line in enumerate(lines):
+            if "vhdl_comp_off" in line:
+                off = True
+            opens, closes = line.count("/*"), line.count("*/")
+            plain = not skip and not off and opens == 0 and closes == 0 and not line.lstrip().startswith("#") and "vsg_" not in line and "synthesis" not in line and "pragma" not in line
+            if opens > closes:
+                skip = True
+            elif closes > opens:
+                skip = False
+            if off and "vhdl_comp_on" in line:
+                off = False
+            if plain and not skip and line.strip():
+                k = r.random()
+                if k < 0.2:
+                    res.append("-- pragma keep%d" % (n % 7))
+                elif k < 0.35:
+                    res.append("      -- synthesis attr%d" % (n % 5))
+            res.append(line)
+        return res
+    if kind == "case":
+        return c05.mutate(lines, "case", r)  # per line: upper / lower / swapcase outside literals and extended identifiers
     if kind == "dedent":
         return [l.lstrip(" \t") if r.random() < 0.7 else l for l in lines]
     if kind == "squeeze":
@@ -183,9 +224,14 @@ def compute(tier, d):
             with open(cf, "w") as fh:
                 fh.write(yaml.safe_dump({"rule": {j["rule"]: j["options"]}}))
             argv += ["-c", cf]
+        elif j["kind"] == "indentcfg":
+            cf = os.path.join(d, "i%05d.yaml" % k)
+            with open(cf, "w") as fh:
+                fh.write(yaml.safe_dump(j["indent"]))
+            argv += ["-c", cf]
         elif j["kind"] == "derived":
             pass
-        elif j["kind"] == "variant":
+        if j.get("variant"):
             try:
                 lines = corpus.read_lines(path)
             except Exception:
@@ -201,8 +247,8 @@ def compute(tier, d):
             with open(path, "w", encoding="utf-8", errors="surrogateescape") as fh:
                 fh.write("\n".join(v) + "\n")
         jobs.append({"path": path, "argv": argv, "trace_path": os.path.join(d, "t%05d.trace" % k), "roles": roles, "refix": 4 if tier == "thorough" else 2,
-                     "label": {x: j[x] for x in j if x not in ("path", "argv")}, "source": j["path"], "keep_text": j["kind"] == "variant",
-                     "derive": j.get("rule") if j["kind"] == "derived" else None, "derive_cfg": os.path.join(d, "d%05d.yaml" % k)})
+                     "label": {x: j[x] for x in j if x not in ("path", "argv")}, "source": j["path"], "keep_text": bool(j.get("variant")),
+                     "derive": j.get("rule") if j["kind"] == "derived" else None, "derive_mode": j.get("derive_mode", "one"), "derive_cfg": os.path.join(d, "d%05d.yaml" % k)})
     t0 = time.time()
     with Pool(vlib.NCPU) as p:
         res = p.map(_run, jobs, chunksize=2)
@@ -220,7 +266,10 @@ def compute(tier, d):
         elif lab.get("kind") == "option":
             o["rel"] += " {%s: %s}" % (lab["rule"], json.dumps(lab["options"], default=repr))
             o["argv"] = [a for a in o["argv"] if not a.endswith(".yaml") and a != "-c"]
-        elif lab.get("kind") == "variant":
+        elif lab.get("kind") == "indentcfg":
+            o["rel"] += " {indent: %s}" % json.dumps(lab["indent"]["indent"]["tokens"], sort_keys=True)
+            o["argv"] = [a for a in o["argv"] if not a.endswith(".yaml") and a != "-c"]
+        if lab.get("variant"):
             o["rel"] += " <%s variant>" % lab["variant"]
             try:
                 o["variant_text"] = open(o["path"], errors="replace").read() if (o.get("records") is not None and (o["status"] != "ok" or o.get("reread_diff") or o.get("refix_changes") or o.get("reread_rejected"))) else None
